@@ -65,6 +65,15 @@ def d1_marker(chk: Check) -> None:
                 any(isinstance(s, ast.Return) and src(s.value) == "False"
                     for s in n.body):
             guard = True
+    # the same decision with the arms the other way round:
+    # `if isinstance(v, str): return <marker test>` / `return False`
+    pos_if = [n for n in fi.node.body if isinstance(n, ast.If) and
+              src(n.test).replace(" ", "") == "isinstance({},str)".format(p)
+              and not n.orelse and len(n.body) == 1 and
+              isinstance(n.body[0], ast.Return)]
+    last = fi.node.body[-1]
+    if pos_if and isinstance(last, ast.Return) and src(last.value) == "False":
+        guard = True
     if guard:
         chk.ok("C19-D1", fi, fi.node, "non-str guard",
                "non-string values are not secrets")
@@ -72,6 +81,8 @@ def d1_marker(chk: Check) -> None:
         chk.fail("C19-D1", fi, fi.node, "non-str guard",
                  "non-string values are no longer rejected first")
     rets = [n for n in fi.node.body if isinstance(n, ast.Return)]
+    if pos_if and isinstance(last, ast.Return) and src(last.value) == "False":
+        rets = [pos_if[0].body[0]]
     ok = False
     if rets:
         removed, base, tail = _replace_chain(rets[-1].value)
